@@ -17,14 +17,20 @@ R2 wrapper shape of `recoverable`: the decorator returns the nested wrapper; the
    caught exception); normal completion never calls recover; a failure of recover propagates; a ValueError of
    the look-ups is raised only where the dominating tests leave one look-up variable (a local defined by an
    isinstance selection on Job / Step) None - nested fallbacks, flat guard clauses over a chained search and
-   truthiness tests alike.
+   truthiness tests alike.  A look-up extracted into a function counts when every return of the (single) resolved
+   callee is None or a value selected by `isinstance(.., <parameter>)` and the call site binds that parameter to
+   Job / Step (refactoring B20-1); `x = None; for a in ..: if isinstance(a, Step): x = a` counts through the facts
+   dominating the assignment.
 R3 assembly order in `_recover` (CFG dominance, helpers extracted from `_recover` are followed):
    build_graph < create_graph_mapper < lock acquisition < _synchronize_workflows <
    _populate_workflow < _inject_tokens < restore of every step (loop / gather over `<wf>.steps`,
    no skip/break) < save < executor.run; all stages work on the one workflow object obtained from
    `WorkflowBuilder.load_workflow`; the provenance search starts from the failed job's inputs, its
    job token and the connector tokens (generators filtered by port class; a list assembled by an extracted
-   helper is read through the helper's return expressions, the failed job being the parameter bound to it);
+   helper is read through the helper's return expressions, the failed job being the parameter bound to it; a list
+   assembled by mutation - `xs = list(..); xs.extend(<generator>); xs.append(..)`, `+=` - is read through what it is
+   fed with, provided the feeding statement dominates the build_graph call or lies in a loop completed before it;
+   an appended element takes its port-class filter from the dominating tests - refactoring B20-2);
    `_recover` raises only
    under an emptiness test; the retry delay is slept only when configured.
 R4 stateful steps restore their state: ScatterStep / LoopCombinatorStep / DefaultTransformer define a
@@ -46,7 +52,10 @@ R4 stateful steps restore their state: ScatterStep / LoopCombinatorStep / Defaul
    duplicate-tag guard raises only on duplicates.
 R5 (added) population of the recovery workflow: `_populate_workflow` loads every selected step id and,
    unconditionally, the failed step itself, and re-creates every plain port (and only those) as an
-   InterWorkflowPort / InterWorkflowJobPort (job ports) of the same name.
+   InterWorkflowPort / InterWorkflowJobPort (job ports) of the same name.  The class handed to `create_port` is read
+   leaf by leaf: branches of a conditional expression, or the assignments of a local reaching the call, each with the
+   facts of the tests dominating it / it must pass to arrive (`if t: c = A else: c = B`, `c = B; if t: c = A` -
+   refactoring B20-6); every leaf must be the inter-workflow class matching what is known about `isinstance(port, JobPort)`.
 R6 (added) hygiene of the plumbing functions: every coroutine-producing call is awaited or scheduled;
    every name / `self.<attr>` they use is bound somewhere (whole-repo validated: 0 hits on today's tree).
 
@@ -81,7 +90,7 @@ import ast
 import itertools
 
 from ..cfg import ALL, NORMAL
-from ..dataflow import defs_of, origins
+from ..dataflow import defs_of, origins, reaching_defs
 from ..model import ancestors, parent, unparse
 from ..selftest import V
 from ._util_D import (
@@ -122,6 +131,7 @@ from ._util_D import (
     rcall,
     region,
     resolves_to,
+    returned_exprs,
     retry_allowed,
     stage_calls,
     strip,
@@ -309,15 +319,99 @@ def _none_fact(e, v):
     return None, None
 
 
-def _is_lookup_var(p, w, name) -> bool:
-    """Every definition of local `name` of the wrapper selects an argument by isinstance on Job / Step."""
+def _isinstance_on(p, f, n, classes, cls_params=None):
+    """`n` is `isinstance(x, C)` with C one of `classes` (qualified names) - or, inside an extracted look-up helper, a
+    parameter of `cls_params` (parameter name -> the class its call site passes).  Returns the class or None."""
+    if not (isinstance(n, ast.Call) and isinstance(n.func, ast.Name) and n.func.id == "isinstance" and len(n.args) == 2):
+        return None
+    c = n.args[1]
+    if cls_params and isinstance(c, ast.Name) and c.id in cls_params and all(d.kind == "param" for d in defs_of(f, c.id)):
+        return cls_params[c.id]
+    q = p.resolve_expr(f.module, c)
+    return q if q in classes else None
+
+
+def _selected_classes(p, f, e, classes, depth=2, cls_params=None) -> set:
+    """Classes of `classes` by which expression `e` of `f` selects an argument: an `isinstance(.., C)` test inside the
+    expression (`next((a for a in args if isinstance(a, C)), None)`), or - the look-up extracted into a function
+    (refactoring B20-1) - a call resolved to exactly one program function whose every return yields None or a value
+    selected by `isinstance(.., <parameter>)`, the parameter being bound to C at this call site: the test sits in the
+    returned expression, or it is a fact of the tests dominating the statement that evaluates the returned value
+    (`for a in ..: if isinstance(a, cls): return a`; temporaries followed flow-sensitively)."""
+    out = set()
+    for x in ast.walk(e):
+        c = _isinstance_on(p, f, x, classes, cls_params)
+        if c is not None:
+            out.add(c)
+    if depth <= 0:
+        return out
+    for x in ast.walk(e):
+        if not isinstance(x, ast.Call) or (isinstance(x.func, ast.Name) and x.func.id == "isinstance"):
+            continue
+        qs = rcall(p, f, x, fanout=False)
+        h = p.functions.get(qs[0]) if len(qs) == 1 else None
+        if h is None or h is f or h.is_abstract:
+            continue
+        b = bind_args(h.node, x, bound=h.cls is not None)
+        if b is None:
+            continue
+        cp = {}
+        for pn, a in b.items():
+            q = p.resolve_expr(f.module, a) if isinstance(a, (ast.Name, ast.Attribute)) else None
+            if cls_params and isinstance(a, ast.Name) and a.id in cls_params:
+                q = cls_params[a.id]
+            if q in classes:
+                cp[pn] = q
+        if not cp:
+            continue
+        gh = h.cfg
+        sel, plain = set(), False
+        for r in [n for n in gh.nodes.values() if n.kind == "return"]:
+            if r.ast.value is None:
+                continue
+            for v, at in returned_exprs(h, r.ast, with_stmt=True):
+                v = strip(v)
+                if isinstance(v, ast.Constant) and v.value is None:
+                    continue
+                got = _selected_classes(p, h, v, classes, depth - 1, cp)
+                if not got and isinstance(v, ast.Name):
+                    facts = path_facts(gh, r.id) + ([y for i in gh.ids_of(at) for y in path_facts(gh, i)] if at is not r.ast else [])
+                    for fe, fv in facts:
+                        c = _isinstance_on(p, h, fe, classes, cp)
+                        if c is not None and fv is True and isinstance(fe.args[0], ast.Name) and fe.args[0].id == v.id:
+                            got.add(c)
+                if not got:
+                    plain = True
+                sel |= got
+        if sel and not plain:
+            out |= sel
+    return out
+
+
+def _is_lookup_var(p, w, name, classes=(JOB, STEP_CLS)) -> bool:
+    """Every definition of local `name` of the wrapper selects an argument by isinstance on Job / Step: the test is
+    part of the assigned expression, sits in an extracted look-up function (see `_selected_classes`), or dominates
+    the assignment of a bare candidate (`step = None` / `for a in ..: if isinstance(a, Step): step = a`; the `None`
+    initialisation selects nothing and is neutral)."""
     ds = defs_of(w, name)
-
-    def isinst(n):
-        return (isinstance(n, ast.Call) and isinstance(n.func, ast.Name) and n.func.id == "isinstance" and len(n.args) == 2
-                and p.resolve_expr(w.module, n.args[1]) in (JOB, STEP_CLS))
-
-    return bool(ds) and all(d.value is not None and any(isinst(x) for x in ast.walk(d.value)) for d in ds)
+    g = w.cfg
+    n_sel = 0
+    for d in ds:
+        if d.value is None:
+            return False
+        v = strip(d.value)
+        if d.kind == "assign" and isinstance(v, ast.Constant) and v.value is None:
+            continue
+        if _selected_classes(p, w, d.value, classes):
+            n_sel += 1
+            continue
+        if d.kind == "assign" and d.index is None and isinstance(v, ast.Name) and d.stmt is not None:
+            facts = [x for i in g.ids_of(d.stmt) for x in path_facts(g, i)]
+            if any(fv is True and _isinstance_on(p, w, fe, classes) is not None and isinstance(fe.args[0], ast.Name) and fe.args[0].id == v.id for fe, fv in facts):
+                n_sel += 1
+                continue
+        return False
+    return n_sel > 0
 
 
 def _check_wrapper(ctx, w, fparam):
@@ -405,17 +499,7 @@ def _check_wrapper(ctx, w, fparam):
         h = next((a for a in ancestors(c) if isinstance(a, ast.ExceptHandler) and a in tr.handlers), None)
 
         def picked_by(name_expr, cls_q):
-            if not isinstance(name_expr, ast.Name):
-                return False
-            ds = defs_of(w, name_expr.id)
-            if not ds:
-                return False
-
-            def isinst(n):
-                return (isinstance(n, ast.Call) and isinstance(n.func, ast.Name) and n.func.id == "isinstance" and len(n.args) == 2
-                        and p.resolve_expr(w.module, n.args[1]) == cls_q)
-
-            return all(d.value is not None and any(isinst(x) for x in ast.walk(d.value)) for d in ds)
+            return isinstance(name_expr, ast.Name) and _is_lookup_var(p, w, name_expr.id, (cls_q,))
 
         ok_job = picked_by(b.get("job"), JOB)
         ok_step = picked_by(b.get("step"), STEP_CLS)
@@ -524,6 +608,53 @@ def _direct_sites(p, f, spec, depth=2, binding=None):
     return out
 
 
+_FEEDERS = {"append": (0, True), "add": (0, True), "appendleft": (0, True), "insert": (1, True), "extend": (0, False), "update": (0, False)}
+
+
+def _accumulated(f, e, use, limit=8):
+    """[(fed expression, it is one element (append / add / insert) rather than a collection (extend / update / +=),
+    CFG node ids of the feeding statement)] for the collections expression `e` of `f` is assembled from by mutation
+    (refactoring B20-2: a list display of starred generators written as `xs = list(..); xs.extend(gen); ..`): the
+    locals mentioned by `e` (plain assignments and the fed expressions themselves followed).  Only feeds that certainly
+    happened when `use` is evaluated count: the feeding statement dominates the use, or - the loop form of a generator -
+    it lies in a loop that is complete before the use (the loop head dominates the use, the use is outside)."""
+    g = f.cfg
+    uids = g.node_containing(use)
+    out, names, todo = [], set(), [e]
+    while todo:
+        x = todo.pop()
+        for n in [x, *ast.walk(x)]:
+            if not (isinstance(n, ast.Name) and isinstance(n.ctx, ast.Load)) or n.id in names or len(names) >= limit:
+                continue
+            ds = defs_of(f, n.id)
+            if not ds or any(d.kind not in ("assign", "walrus", "aug") for d in ds):
+                continue
+            names.add(n.id)
+            cands = [(d.value, False, d.stmt) for d in ds if d.kind == "aug" and d.value is not None]
+            for c in f.calls():
+                if isinstance(c.func, ast.Attribute) and c.func.attr in _FEEDERS and isinstance(c.func.value, ast.Name) and c.func.value.id == n.id:
+                    i, single = _FEEDERS[c.func.attr]
+                    if len(c.args) > i and not c.keywords:
+                        cands.append((c.args[i], single, c))
+            for d in ds:
+                if d.kind in ("assign", "walrus") and d.value is not None:
+                    todo.append(d.value)
+            for v, single, at in cands:
+                ids = (g.ids_of(at) if isinstance(at, ast.stmt) else []) or g.node_containing(at)
+                if not ids or not uids:
+                    continue
+                sure = all(g.dominates(ids, u) for u in uids)
+                if not sure:
+                    loops = [a for a in ancestors(at) if isinstance(a, (ast.For, ast.AsyncFor))]
+                    if loops and not any(a is loops[-1] for a in ancestors(use)):
+                        heads = g.ids_of(loops[-1])
+                        sure = bool(heads) and all(g.dominates(heads, u) for u in uids)
+                if sure:
+                    out.append((v, single, ids))
+                    todo.append(v)
+    return out
+
+
 def r3(ctx):
     p = ctx.prog
     f = p.func(f"{RFM}._recover")
@@ -554,6 +685,10 @@ def r3(ctx):
         # the argument as written, and - when the list is assembled by an extracted helper - the helper's return
         # expressions with the failed job translated to the parameter that receives it
         views = helper_views(p, h, e, {"job": who}) if e is not None else []
+        # .. and the pieces a list assembled by mutation is fed with (`xs.extend(<generator>)`, `xs.append(..)`, `+=`)
+        feeds = _accumulated(h, e, c) if e is not None else []
+        for fe, _single, _ids in feeds:
+            views += helper_views(p, h, fe, {"job": who})
 
         def _inputs_of(hf, ex, wj):
             return wj is not None and mentions(
@@ -566,21 +701,32 @@ def r3(ctx):
 
         has_inputs = any(_inputs_of(hf, ex, roles.get("job")) for hf, ex, roles in views)
         has_job = any(_job_token_of(hf, ex, roles.get("job")) for hf, ex, roles in views)
+
         # the extra tokens come from connector ports / job ports only
+        def _wanted(hf, elt):
+            elt = strip(elt)
+            if isinstance(elt, ast.Subscript) and isinstance(elt.value, ast.Attribute) and elt.value.attr == "token_list":
+                return "streamflow.workflow.port.ConnectorPort"
+            if isinstance(elt, ast.Call) and resolves_to(p, hf, elt, ["streamflow.workflow.utils.get_job_token"], attr_fallback=False):
+                return "streamflow.workflow.port.JobPort"
+            return None
+
+        def _port_class_known(hf, facts, want):
+            return any(v is True and isinstance(x, ast.Call) and isinstance(x.func, ast.Name) and x.func.id == "isinstance" and len(x.args) == 2
+                       and p.resolve_expr(hf.module, x.args[1]) == want for x, v in facts)
+
         filt_ok = True
         for hf, ex, _roles in views:
             for o in origins(hf, ex):
                 for gen in [x for x in ast.walk(o) if isinstance(x, (ast.GeneratorExp, ast.ListComp))]:
-                    elt = strip(gen.elt)
-                    want = None
-                    if isinstance(elt, ast.Subscript) and isinstance(elt.value, ast.Attribute) and elt.value.attr == "token_list":
-                        want = "streamflow.workflow.port.ConnectorPort"
-                    elif isinstance(elt, ast.Call) and resolves_to(p, hf, elt, ["streamflow.workflow.utils.get_job_token"], attr_fallback=False):
-                        want = "streamflow.workflow.port.JobPort"
+                    want = _wanted(hf, gen.elt)
                     if want is not None:
-                        filt_ok = filt_ok and any(
-                            v is True and isinstance(x, ast.Call) and isinstance(x.func, ast.Name) and x.func.id == "isinstance" and len(x.args) == 2
-                            and p.resolve_expr(hf.module, x.args[1]) == want for cond in gen.generators[0].ifs for x, v in implied(cond, True))
+                        filt_ok = filt_ok and _port_class_known(hf, [y for cond in gen.generators[0].ifs for y in implied(cond, True)], want)
+        # a single element fed by `xs.append(<elt>)`: the filter is what the dominating tests establish there
+        for fe, single, ids in feeds:
+            want = _wanted(h, fe) if single else None
+            if want is not None:
+                filt_ok = filt_ok and _port_class_known(h, [y for i in ids for y in path_facts(h.cfg, i)], want)
         has_inputs = has_inputs and filt_ok
         ctx.ob("R3", "build_graph starts from the failed job's input tokens and its job token", has_inputs and has_job, func=h, node=c, instance="build_graph:inputs",
                message=f"the provenance search does not start from failed_job.inputs (found={has_inputs}) and the job token (found={has_job}): lost inputs are not regenerated")
@@ -1142,6 +1288,62 @@ def r4(ctx):
 # --------------------------------------------------------------------------- R5
 
 
+def _survival_facts(g, dids, kills, uids):
+    """Facts a definition (CFG nodes `dids`) carries to a use (`uids`) because of what lies in between: a test that
+    every path from the definition to the use avoiding the other definitions (`kills`) must evaluate, and which lets
+    the definition through on one outcome only (`x = A; if t: x = B; use(x)`: A arrives with `t` false)."""
+    out = []
+    kills = set(kills) - set(dids) - set(uids)
+    live = g.reach(dids, avoid=kills, include_src=True)
+    for t in g.nodes.values():
+        if t.kind != "test" or t.ast is None or t.id not in live or t.id in dids or t.id in uids:
+            continue
+        if any(g.path(d, uids, avoid=kills | {t.id}) is not None for d in dids):
+            continue  # the test can be bypassed
+        can = {}
+        for k in ("t", "f"):
+            ss = [b for b in succ_ids(g, t.id, k) if b not in kills]
+            can[k] = any(b in uids or g.path(b, uids, avoid=kills | {t.id}) is not None for b in ss)
+        if can["t"] != can["f"]:
+            out += implied(t.ast, can["t"])
+    return out
+
+
+def succ_ids(g, nid, kind):
+    return [b for b, k in g.succ[nid] if k == kind]
+
+
+def _valued_leaves(f, e, at, facts, depth=3, seen=frozenset()):
+    """[(leaf expression, facts known where it is evaluated)] for expression `e` evaluated at `at` (an AST node of
+    `f`, where `facts` hold): the branches of conditional expressions (with the outcome of their tests) and, for a
+    bare local, its plain whole assignments reaching `at` (flow-sensitive), each with the facts of the tests that
+    dominate the assignment and of those the assignment must pass to arrive - `x = A if t else B`,
+    `if t: x = A else: x = B` and `x = B; if t: x = A` read alike."""
+    e = strip(e)
+    if isinstance(e, ast.IfExp):
+        return (_valued_leaves(f, e.body, at, facts + implied(e.test, True), depth, seen)
+                + _valued_leaves(f, e.orelse, at, facts + implied(e.test, False), depth, seen))
+    if isinstance(e, ast.Name) and depth > 0 and e.id not in seen:
+        ds = reaching_defs(f, e.id, at)
+        if ds and all(d.kind in ("assign", "walrus") and d.index is None and d.value is not None and d.stmt is not None for d in ds):
+            g = f.cfg
+
+            def nodes(d):
+                return g.node_containing(d.stmt) if d.kind == "walrus" else (g.ids_of(d.stmt) or g.node_containing(d.stmt))
+
+            uids = (g.ids_of(at) if isinstance(at, ast.stmt) else []) or g.node_containing(at)
+            every = [(d, nodes(d)) for d in defs_of(f, e.id) if d.stmt is not None and d.kind in ("assign", "walrus", "for", "with")]
+            out = []
+            for d in ds:
+                ids = nodes(d)
+                df = [x for i in ids for x in path_facts(g, i)] + (expr_facts(d.stmt) if d.kind == "walrus" else [])
+                if len(ds) > 1 and ids and uids:
+                    df += _survival_facts(g, ids, {i for d2, i2 in every if d2.stmt is not d.stmt for i in i2}, uids)
+                out += _valued_leaves(f, d.value, d.stmt if d.kind != "walrus" else d.value, df, depth - 1, seen | {e.id})
+            return out
+    return [(e, facts)]
+
+
 def r5(ctx):
     """_populate_workflow: every selected step and the failed step itself are loaded into the recovery
     workflow, and every plain port is replaced by an inter-workflow port (later recoveries attach to it)."""
@@ -1184,7 +1386,6 @@ def r5(ctx):
             continue
         b = bind_args(p.func(f"{CORE_WF}.Workflow.create_port").node, c) or {}
         cls_e, name_e = b.get("cls"), b.get("name")
-        classes = {p.resolve_expr(f.module, x) for x in ast.walk(cls_e) if isinstance(x, (ast.Name, ast.Attribute))} if cls_e is not None else set()
         same_name = name_e is not None and isinstance(loop.target, ast.Name) and mentions(
             f, name_e, lambda n: isinstance(n, ast.Attribute) and n.attr == "name" and isinstance(n.value, ast.Name) and n.value.id == loop.target.id, depth=0)
         # only ports that are not yet connector / inter-workflow ports; job ports stay job ports
@@ -1197,16 +1398,21 @@ def r5(ctx):
             return {"streamflow.workflow.port.InterWorkflowPort", "streamflow.workflow.port.ConnectorPort"} <= names
 
         plain_only = has_fact(facts, special, False)
+        # the class handed to create_port, case by case: every leaf of the class expression (branches of a conditional
+        # expression; the definitions of a local reaching the call - refactoring B20-6: `if isinstance(port, JobPort):
+        # cls = A else: cls = B`) with the facts known where the leaf is evaluated.  Job ports become job ports.
         kind_ok = True
-        cands = [cls_e] if cls_e is not None else []
-        if isinstance(cls_e, ast.Name):
-            cands = [d.value for d in defs_of(f, cls_e.id) if d.value is not None]
-        for o in cands:
-            if isinstance(o, ast.IfExp):
-                jt = [v for e, v in implied(o.test, True) if isinstance(e, ast.Call) and isinstance(e.func, ast.Name) and e.func.id == "isinstance"
+        leaves = _valued_leaves(f, cls_e, c, facts) if cls_e is not None else []
+        classes = set()
+        for leaf, lf in leaves:
+            q = p.resolve_expr(f.module, leaf) if isinstance(leaf, (ast.Name, ast.Attribute)) else None
+            classes.add(q)
+            if len(leaves) > 1 or q == "streamflow.workflow.port.InterWorkflowJobPort":
+                jt = [v for e, v in lf if isinstance(e, ast.Call) and isinstance(e.func, ast.Name) and e.func.id == "isinstance"
                       and len(e.args) == 2 and p.resolve_expr(f.module, e.args[1]) == "streamflow.workflow.port.JobPort"]
-                body_cls = p.resolve_expr(f.module, o.body) if isinstance(o.body, (ast.Name, ast.Attribute)) else None
-                kind_ok = bool(jt) and ((jt[0] is True) == (body_cls == "streamflow.workflow.port.InterWorkflowJobPort"))
+                kind_ok = kind_ok and bool(jt) and ((jt[0] is True) == (q == "streamflow.workflow.port.InterWorkflowJobPort"))
+        classes = {"streamflow.workflow.port.InterWorkflowPort", "streamflow.workflow.port.InterWorkflowJobPort"} if classes == {
+            "streamflow.workflow.port.InterWorkflowPort", "streamflow.workflow.port.InterWorkflowJobPort"} else set()
         ok = ok or ({"streamflow.workflow.port.InterWorkflowPort", "streamflow.workflow.port.InterWorkflowJobPort"} <= classes and same_name and plain_only and kind_ok)
     ctx.ob("R5", "plain ports of the recovery workflow are replaced by inter-workflow ports of the same name", ok, func=f, node=(creates[0] if creates else f.node),
            instance="populate:ports", message="ports of the recovery workflow are not re-created as InterWorkflowPort / InterWorkflowJobPort: boundary rules cannot be attached")
@@ -1454,6 +1660,24 @@ _TOKEN_LIST_LOOP = ("        if %s:\n            available_tokens = []\n        
                     "                    available_tokens.append(mapper.token_instances[token_id])\n            token_list = sorted(available_tokens, key=lambda x: x.tag)\n"
                     "        else:\n            token_list = ()\n")
 
+_JOB_LOOKUP = _STEP_LOOKUP.replace("step :=", "job :=").replace("Step", "Job")
+_FIND_ARG = ("def _find_argument(cls: type, args: tuple, kwargs: dict):\n    for candidates in (args, kwargs.values()):\n        for arg in candidates:\n"
+             "            if isinstance(arg, cls):\n                return arg\n    return None\n")
+_LOOKUPS_VIA_HELPER = ("        if (step := _find_argument(Step, args, kwargs)) is None:\n            raise ValueError('The wrapped function must take a `Step` object as argument')\n"
+                       "        if (job := _find_argument(Job, args, kwargs)) is None:\n            raise ValueError('The wrapped function must take a `Job` object as argument')\n")
+_BUILD_GRAPH = "    await provenance.build_graph(inputs=[" + _PROV_INPUTS + "])\n"
+_BUILD_GRAPH_EXTEND = ("    input_ports = list(failed_step.get_input_ports().values())\n    inputs = list(failed_job.inputs.values())\n"
+                       "    inputs.extend((port.token_list[0] for port in input_ports if isinstance(port, ConnectorPort)))\n"
+                       "    inputs.extend((get_job_token(failed_job.name, port.token_list) for port in input_ports if isinstance(port, JobPort)))\n"
+                       "    await provenance.build_graph(inputs=inputs)\n")
+_BUILD_GRAPH_LOOP = ("    inputs = [*failed_job.inputs.values()]\n    for port in failed_step.get_input_ports().values():\n        if isinstance(port, ConnectorPort):\n"
+                     "            inputs.append(port.token_list[0])\n        elif isinstance(port, JobPort):\n            inputs.append(get_job_token(failed_job.name, port.token_list))\n"
+                     "    await provenance.build_graph(inputs=inputs)\n")
+_CREATE_PORT = ("        if not isinstance(port, (ConnectorPort, InterWorkflowJobPort, InterWorkflowPort)):\n"
+                "            workflow.create_port(InterWorkflowJobPort if isinstance(port, JobPort) else InterWorkflowPort, port.name)")
+_CREATE_PORT_STMT = ("        if isinstance(port, (ConnectorPort, InterWorkflowJobPort, InterWorkflowPort)):\n            continue\n        port_cls: type[Port]\n"
+                     "        if isinstance(port, JobPort):\n            port_cls = %s\n        else:\n            port_cls = %s\n        workflow.create_port(port_cls, port.name)")
+
 VARIANTS = [
     # ---- R1
     V("@recoverable removed from _run_transfer", STEP_FILE, f"{STEP}.TransferStep._run_transfer", "@recoverable\nasync def _run_transfer", "async def _run_transfer", "R1", control=True),
@@ -1645,4 +1869,47 @@ VARIANTS = [
       _ALIASES + _RESTORE_LOOP_ALIASED.replace(" if port.name in port_tokens.keys()}", "}"), "R4"),
     V("recover called through a local alias of the manager", REC_FILE, DECORATOR, "await step.workflow.context.failure_manager.recover(job, step, e)",
       "fm = step.workflow.context.failure_manager\n                await fm.recover(job=job, step=step, exception=e)", None),
+    # ---- refactoring B20-1: the duplicated look-up extracted into a module-level function
+    V("Job / Step look-ups extracted into a module-level function (loop with isinstance on the class parameter)", REC_FILE, DECORATOR, _STEP_LOOKUP + _JOB_LOOKUP,
+      _LOOKUPS_VIA_HELPER, None, append=_FIND_ARG),
+    V("extracted look-up written with next() over a chain", REC_FILE, DECORATOR, _STEP_LOOKUP + _JOB_LOOKUP, _LOOKUPS_VIA_HELPER, None,
+      append="def _find_argument(cls, args, kwargs):\n    found = next((a for a in (*args, *kwargs.values()) if isinstance(a, cls)), None)\n    return found\n"),
+    V("step look-up as an inline loop over the arguments", REC_FILE, DECORATOR, _STEP_LOOKUP,
+      "        step = None\n        for arg in (*args, *kwargs.values()):\n            if isinstance(arg, Step):\n                step = arg\n                break\n"
+      "        if step is None:\n            raise ValueError('The wrapped function must take a `Step` object as argument')\n", None),
+    V("extracted look-up: the job guard raises when a Job was found", REC_FILE, DECORATOR, _STEP_LOOKUP + _JOB_LOOKUP,
+      _LOOKUPS_VIA_HELPER.replace("(job := _find_argument(Job, args, kwargs)) is None", "(job := _find_argument(Job, args, kwargs)) is not None"), "R2", append=_FIND_ARG),
+    V("extracted look-up ignores the requested class", REC_FILE, DECORATOR, _STEP_LOOKUP + _JOB_LOOKUP, _LOOKUPS_VIA_HELPER, "R2",
+      append=_FIND_ARG.replace("            if isinstance(arg, cls):\n                return arg\n", "            if arg is not None:\n                return arg\n")),
+    V("extracted look-up is asked for a Step where the Job is needed", REC_FILE, DECORATOR, _STEP_LOOKUP + _JOB_LOOKUP,
+      _LOOKUPS_VIA_HELPER.replace("_find_argument(Job, args, kwargs)", "_find_argument(Step, args, kwargs)"), "R2", append=_FIND_ARG),
+    # ---- refactoring B20-2: the provenance inputs assembled by list + extend over a bound local
+    V("provenance inputs assembled by list() + extend() of the generators", FM_FILE, _REC, _BUILD_GRAPH, _BUILD_GRAPH_EXTEND, None),
+    V("provenance inputs assembled by a loop with append under isinstance tests", FM_FILE, _REC, _BUILD_GRAPH, _BUILD_GRAPH_LOOP, None),
+    V("extend form: the job tokens are no longer added", FM_FILE, _REC, _BUILD_GRAPH,
+      _BUILD_GRAPH_EXTEND.replace("    inputs.extend((get_job_token(failed_job.name, port.token_list) for port in input_ports if isinstance(port, JobPort)))\n", ""), "R3"),
+    V("extend form: the job tokens are added only when debugging", FM_FILE, _REC, _BUILD_GRAPH,
+      _BUILD_GRAPH_EXTEND.replace("    inputs.extend((get_job_token(", "    if logger.isEnabledFor(logging.DEBUG):\n        inputs.extend((get_job_token("), "R3"),
+    V("extend form: the job tokens are added after the search", FM_FILE, _REC, _BUILD_GRAPH,
+      _BUILD_GRAPH_EXTEND.replace("    inputs.extend((get_job_token(failed_job.name, port.token_list) for port in input_ports if isinstance(port, JobPort)))\n    await provenance.build_graph(inputs=inputs)\n",
+                                  "    await provenance.build_graph(inputs=inputs)\n    inputs.extend((get_job_token(failed_job.name, port.token_list) for port in input_ports if isinstance(port, JobPort)))\n"), "R3"),
+    V("extend form: first token of every input port", FM_FILE, _REC, _BUILD_GRAPH, _BUILD_GRAPH_EXTEND.replace(" if isinstance(port, ConnectorPort)", ""), "R3"),
+    V("loop form: first token of every non-job port", FM_FILE, _REC, _BUILD_GRAPH,
+      _BUILD_GRAPH_LOOP.replace("        if isinstance(port, ConnectorPort):\n            inputs.append(port.token_list[0])\n        elif isinstance(port, JobPort):\n            inputs.append(get_job_token(failed_job.name, port.token_list))\n",
+                                "        if isinstance(port, JobPort):\n            inputs.append(get_job_token(failed_job.name, port.token_list))\n        else:\n            inputs.append(port.token_list[0])\n"), "R3"),
+    # ---- refactoring B20-6: the conditional expression of create_port as an if statement behind a guard clause
+    V("port class chosen by an if statement after a guard-clause continue", FM_FILE, f"{FM}._populate_workflow", _CREATE_PORT,
+      _CREATE_PORT_STMT % ("InterWorkflowJobPort", "InterWorkflowPort"), None),
+    V("port class: default first, overridden for job ports", FM_FILE, f"{FM}._populate_workflow", _CREATE_PORT,
+      "        if isinstance(port, (ConnectorPort, InterWorkflowJobPort, InterWorkflowPort)):\n            continue\n        port_cls = InterWorkflowPort\n"
+      "        if isinstance(port, JobPort):\n            port_cls = InterWorkflowJobPort\n        workflow.create_port(port_cls, port.name)", None),
+    V("if-statement form: job ports and data ports swapped", FM_FILE, f"{FM}._populate_workflow", _CREATE_PORT,
+      _CREATE_PORT_STMT % ("InterWorkflowPort", "InterWorkflowJobPort"), "R5"),
+    V("if-statement form: every port becomes a plain inter-workflow port", FM_FILE, f"{FM}._populate_workflow", _CREATE_PORT,
+      _CREATE_PORT_STMT % ("InterWorkflowPort", "InterWorkflowPort"), "R5"),
+    V("default-then-override form: the override is dead (tested on non-job ports)", FM_FILE, f"{FM}._populate_workflow", _CREATE_PORT,
+      "        if isinstance(port, (ConnectorPort, InterWorkflowJobPort, InterWorkflowPort)):\n            continue\n        port_cls = InterWorkflowPort\n"
+      "        if not isinstance(port, JobPort):\n            port_cls = InterWorkflowJobPort\n        workflow.create_port(port_cls, port.name)", "R5"),
+    V("guard-clause form skips the plain ports instead of the special ones", FM_FILE, f"{FM}._populate_workflow", _CREATE_PORT,
+      (_CREATE_PORT_STMT % ("InterWorkflowJobPort", "InterWorkflowPort")).replace("        if isinstance(port, (ConnectorPort,", "        if not isinstance(port, (ConnectorPort,"), "R5"),
 ]
